@@ -127,7 +127,9 @@ func VerifH04() {
 	k := histSteps(2, 3)
 	nd.Bound("H04.steps", k)
 	concreteCounter = true // the counter's role across restarts is C05's subject
+	verifenv.TornWrites = true
 	w := newWorld(stdConfig(), []string{"a", "b"})
+	w.vlen = 2 // two-byte contents: a crash can tear them
 	a := alpha{tx: true, gc: true, drain: true, maxTx: 1, levels: []model.TxIsoLevel{fs_db.IsoLevelReadCommitted, fs_db.IsoLevelSerializable}}
 	if nd.Tier() == 0 {
 		w.stepKeys = []string{"a"} // the workload writes key a; key b is written by the prepared transaction only
